@@ -104,6 +104,14 @@ class Ctx:
                 return self._record(name, "discharged", "normal-form", time.time() - t0, shape=shape)
         except Unmodelled:
             d = None
+        except ZeroDivisionError:
+            # a divisor vanishes identically: the terms are undefined wherever their definedness condition fails, which is everywhere
+            # unless the hypotheses already exclude it (then the obligation is vacuous)
+            dn = E.and_(E.defined(an), E.defined(bn))
+            stt, model, _ = smt.check_sat(pcn + [dn], self.timeout)
+            if stt == "unsat":
+                return self._record(name, "discharged", "z3", time.time() - t0, detail="hypotheses exclude every input (a divisor vanishes identically and definedness is a hypothesis)", shape=shape)
+            return self._refuted(name, model or {}, "a divisor vanishes identically: the value is undefined", "normal-form", t0, replay, classify, shape)
         goal = E.eq(an, bn)
         # numeric refutation attempt (cheap, finds most wrong identities)
         cex = self._numeric_cex(an, bn, pcn, numeric_env)
@@ -294,8 +302,8 @@ class Ctx:
     def unknown(self, name, detail, backend="engine"):
         return self._record(name, "unknown", backend, 0.0, detail=detail)
 
-    def explore(self, thunk, stubs=None, max_paths=4096, prune=True, name="", extra_globals=None, constants=None):
-        ex = Explorer(max_paths=max_paths, prune=prune, name=name or self.task)
+    def explore(self, thunk, stubs=None, max_paths=4096, prune=True, name="", extra_globals=None, constants=None, guide=None):
+        ex = Explorer(max_paths=max_paths, prune=prune, name=name or self.task, guide=guide)
         with W.World(stubs=stubs, extra_globals=extra_globals, constants=constants):
             ex.run(thunk)
         return ex
